@@ -1,16 +1,40 @@
-(* C11 - the recorded findings: pairs of functions whose access sites on a location break the lock
-   discipline AND were demonstrated with the race detector on the real code (known_findings.d/C11.json).
-   The discipline theorem is stated for the generated table minus exactly these pairs; every entry
-   is shown to be a genuine violation of the discipline (C11_known_refuted), so an entry that stops
-   being one (the code was repaired) has to be removed here. *)
+(* C11 - recorded findings.
+   [known_pairs]: pairs of functions whose access sites on a location break the lock discipline AND
+   were demonstrated with the race detector on the real code and are NOT yet repaired; the discipline
+   theorem is stated for the generated table minus exactly these pairs.  It is empty today: the two
+   defects found (rng advanced under the read lock; unguarded stream trailer) were repaired in /repo
+   by 07396f3 (Collection.rngMu) and 5a77f27 (ClientServerStream.trailerM), so C11_discipline_holds
+   is about the whole regenerated table.
+   [known_pairs_v0] / [sites_v0]: the pairs and their sites as they were before the repairs, kept for
+   the refutation theorem C11_discipline_v0_refuted. *)
 From SC Require Import Base.Prelude Race.Lockset.
 Local Open Scope string_scope.
 
-Definition known_pairs : known := [
-  (* two concurrent Adds with a generated id both advance the collection's rng under the READ lock *)
+Definition known_pairs : known := [].
+
+Definition known_pairs_v0 : known := [
+  (* two concurrent Adds with a generated id both advanced the collection's rng under the READ lock *)
   ("resource.config.rng.*", "pkg/resource/id.go:GenerateUniqueId", "pkg/resource/id.go:GenerateUniqueId");
-  (* the stream's trailer is written by the handler and read by the client with nothing in between
-     when the client's call ends because its own context ended *)
+  (* the stream's trailer was written by the handler and read by the client with nothing in between
+     when the client's call ended because its own context ended *)
   ("wrap.ClientServerStream.trailer", "pkg/wrap/stream.go:serverStream.SetTrailer", "pkg/wrap/stream.go:clientStream.Trailer");
   ("wrap.ClientServerStream.trailer", "pkg/wrap/stream.go:serverStream.SetTrailer", "pkg/wrap/stream.go:serverStream.SetTrailer")
 ].
+
+(* The sites of the recorded pairs as the translator extracted them before the repairs (v0), and
+   the same sites as it extracts them after (v1: the new mutexes are held). *)
+Definition sites_v0 : list site := [
+  mkSite "resource.config.rng.*" KW [("resource.Collection.mu", MR)] [] [] false "pkg/resource/id.go:GenerateUniqueId" "pkg/resource/id.go:18";
+  mkSite "wrap.ClientServerStream.trailer" KR [] [] [] false "pkg/wrap/stream.go:clientStream.Trailer" "pkg/wrap/stream.go:103";
+  mkSite "wrap.ClientServerStream.trailer" KR [] [] [] false "pkg/wrap/stream.go:serverStream.SetTrailer" "pkg/wrap/stream.go:182";
+  mkSite "wrap.ClientServerStream.trailer" KW [] [] [] false "pkg/wrap/stream.go:serverStream.SetTrailer" "pkg/wrap/stream.go:182"
+].
+Definition table_v0 : table := mkTable sites_v0 [].
+
+Definition sites_v1 : list site := [
+  mkSite "resource.config.rng.*" KW [("resource.Collection.mu", MR); ("resource.Collection.rngMu", MX)] [] [] false "pkg/resource/id.go:GenerateUniqueId" "pkg/resource/id.go:18";
+  mkSite "wrap.ClientServerStream.trailer" KR [("wrap.ClientServerStream.trailerM", MX)] [] [] false "pkg/wrap/stream.go:clientStream.Trailer" "pkg/wrap/stream.go:106";
+  mkSite "wrap.ClientServerStream.trailer" KR [("wrap.ClientServerStream.trailerM", MX)] [] [] false "pkg/wrap/stream.go:serverStream.SetTrailer" "pkg/wrap/stream.go:187";
+  mkSite "wrap.ClientServerStream.trailer" KW [("wrap.ClientServerStream.trailerM", MX)] [] [] false "pkg/wrap/stream.go:serverStream.SetTrailer" "pkg/wrap/stream.go:187"
+].
+Definition table_v1 : table := mkTable sites_v1 [].
